@@ -381,6 +381,7 @@ def classify_forever(tu, fn, n):
 def rule_loops(ctx, tu, eff):
     R = "C10.LOOPS"
     total = 0
+    uncounted = {}
     for f in tu.all_fns():
         if f.body is None:
             continue
@@ -395,11 +396,19 @@ def rule_loops(ctx, tu, eff):
                     cls, why = classify_for(tu, f, n, eff)
             elif k == "WhileStmt":
                 cls, why = classify_while(tu, f, n, eff)
+            elif k == "DoStmt":
+                cls, why = None, "do-while without a recognised counter"
             else:
                 cls, why = None, "loop form not modelled"
-            ctx.check(cls is not None, R, n, f.qual, text(n), "%s: %s" % (cls, why),
-                      "uncounted loop (%s): termination depends on run-time values" % why,
-                      nontrivial=(cls != "counted"))
+            if cls is None:
+                # keyed by its position among the uncounted loops of the function, not by its spelling: rewriting
+                # `for(;;){..if(c) break;}` as `do{..}while(!c)` is the same loop
+                unc = uncounted.setdefault(f.qual, 0) + 1
+                uncounted[f.qual] = unc
+                ctx.violation(R, n, f.qual, "uncounted loop #%d" % unc, "uncounted loop `%s` (%s): termination depends on "
+                              "run-time values" % (text(n)[:60], why))
+            else:
+                ctx.ok(R, n, f.qual, text(n), "%s: %s" % (cls, why), nontrivial=(cls != "counted"))
     ctx.floor(R, 100)
     ctx.analysed["C10.LOOPS"] = {"loops": total}
     # Python side: every loop on the setup / fetch path is a `for` over a finite sequence; the driver `while`
@@ -438,7 +447,8 @@ def rule_isolation(ctx, tu, eff):
         if f.body is None:
             continue
         for n in walk(f.body):
-            if n.get("kind") == "VarDecl" and n.get("storageClass") == "static":
+            if n.get("kind") == "VarDecl" and n.get("storageClass") == "static" and \
+                    not n.get("type", {}).get("qualType", "").startswith("const "):
                 ctx.violation(R, n, f.qual, text(n), "function-local static: state shared across engine objects")
     ctx.floor(R, 1)
 
